@@ -174,7 +174,7 @@ func vpGenOp(t *rapid.T, mode string) vpOp {
 		// periodic sync marking a held address invalid.
 		kinds = []string{"alloc", "alloc", "alloc", "alloc", "alloc", "release", "release", "release", "syncpool", "syncpool", "syncstorm", "sync", "sync", "cancelalloc", "glitch", "drift", "lateworker"}
 	case "C07":
-		kinds = append(kinds, "faults", "faults", "cancelalloc", "cancelalloc", "syncpool", "cancelledcreate")
+		kinds = append(kinds, "faults", "faults", "cancelalloc", "cancelalloc", "syncpool", "cancelledcreate", "faultedshrink")
 	}
 	kinds = append(kinds, "slowrelease")
 	o := vpOp{Kind: rapid.SampledFrom(kinds).Draw(t, "kind")}
@@ -200,6 +200,15 @@ func vpGenOp(t *rapid.T, mode string) vpOp {
 		o.CancelUS = rapid.IntRange(50, 1500).Draw(t, "cancel")
 		o.A = o.CancelUS + rapid.IntRange(200, 2500).Draw(t, "createdelay")
 		o.Faults = []cloudsim.Fault{{Kind: cloudsim.KCreate, Mode: cloudsim.FAfter, Code: rapid.SampledFrom(vpCodes).Draw(t, "fcode")}}
+	case "faultedshrink":
+		// balancer passes while the next unassign call of ONE family fails before it takes
+		// effect (the other family's call of the same dispose round succeeds)
+		fam := cloudsim.KUnAssign4
+		if rapid.Bool().Draw(t, "v6") {
+			fam = cloudsim.KUnAssign6
+		}
+		o.Faults = []cloudsim.Fault{{Kind: fam, Mode: cloudsim.FBefore, Code: rapid.SampledFrom(vpCodes).Draw(t, "fcode")}}
+		o.A = rapid.IntRange(0, 7).Draw(t, "ms")
 	case "lateworker":
 		// a request whose pool worker notices the cancellation late: see doLateWorker
 		o.Pod = rapid.IntRange(0, vpPods-1).Draw(t, "pod")
@@ -1051,6 +1060,16 @@ func (w *vpWorld) doOp(o vpOp) {
 		ctx, cancel := context.WithTimeout(w.ctx, vpAllocTimeout)
 		w.mgr.syncPool(ctx)
 		cancel()
+	case "faultedshrink":
+		w.cloud.SetFaults(o.Faults)
+		w.flag(func() { w.sawDriftOrFault = true })
+		deadline := time.Now().Add(time.Duration(2+o.A%4) * time.Millisecond)
+		for time.Now().Before(deadline) || (w.cloud.Inflight() > 0 && time.Now().Before(deadline.Add(20*time.Millisecond))) {
+			ctx, cancel := context.WithTimeout(w.ctx, 2*time.Millisecond)
+			w.mgr.syncPool(ctx)
+			cancel()
+			time.Sleep(40 * time.Microsecond)
+		}
 	case "syncstorm":
 		// the balancer runs back to back for a few milliseconds while the other operations of
 		// the round are in flight: a pass is likely to fall between two steps of a request
